@@ -175,9 +175,11 @@ class Program:
                 elif style == "expr":
                     ln = self._emit(ind, "const %s = function (%s) {" % (s["name"], params))
                     self._declare(scope, s["name"], "const", ln, "variable_decl", in_block)
+                    self.occs.append(Occ(ln, s["name"], "def", scope))      # the assignment `name = %mmN`
                 else:
                     ln = self._emit(ind, "const %s = (%s) => {" % (s["name"], params))
                     self._declare(scope, s["name"], "const", ln, "variable_decl", in_block)
+                    self.occs.append(Occ(ln, s["name"], "def", scope))
                 s["_line"] = ln
                 f = self._scope("function", scope, ln, name=s["name"])
                 for p in s["params"]:
@@ -401,7 +403,7 @@ def compare(unit, prog, bind, lang="javascript"):
     stats = collections.Counter()
     for occ, exp in prog.resolved():
         stats["occurrences"] += 1
-        syms = bind.at_line(unit, occ.line, occ.name)
+        syms = [s for s in bind.at_line(unit, occ.line, occ.name) if s["op"] not in ("parameter_decl", "method_decl")]
         if occ.role == "def":
             # the declaration statement itself: `let x = 1` is lowered to variable_decl + assign_stmt x
             pass
